@@ -148,6 +148,12 @@ def run(rep, tier, seed, replay, config=None, post=None):
         "idealised primitives appear as explicit premises / section hypotheses of the theorems (see DESIGN.md section 7)"]
     if broken:
         broken_names.append("%s (%s)" % (broken.get("statement"), broken.get("file")))
+    elif tier == "thorough":
+        ok, lines = vlib.coqchk_property(prop)
+        cov["coqchk"] = lines
+        if not ok:
+            rep.violation("coqchk", {"what": "the independent checker coqchk does not accept the compiled development, or it reports axioms / disabled checks",
+                                     "output": lines, "no_longer_checks": "coqchk WhawtyProps.%s" % prop}, found_input=False)
     cov["evaluations"] = 0
     cov["distinct_nontrivial"] = 0
     cov["rule"] = cfg["rule"]
